@@ -232,6 +232,13 @@ func trustedBase(w *World, o *Options) []string {
 		out = append(out, "axiom (justified by the named ground obligation / audit): "+k)
 	}
 	for k, c := range w.cs.Funcs {
+		if contractCarries(c, o.property) {
+			for _, en := range c.Ensures {
+				if en.AssumedWhy != "" {
+					out = append(out, "assumed postcondition of an in-repo function (used at call sites, not proved): "+k+"#"+en.Label+": "+en.Text+" -- "+en.AssumedWhy)
+				}
+			}
+		}
 		if c.Trusted != "" && contractCarries(c, o.property) {
 			out = append(out, "trusted in-repo function (contract used, body not verified): "+k+" -- "+c.Trusted)
 		}
